@@ -193,6 +193,16 @@ def _impl(tier, seed, search):
                         for k_ in range(M_):
                             w_ = rep(want_[k_]); L.close(f'{cname}[M]:{fn_}', rep(r[k_]), w_, tol_, max(1.0, geom.tmag(w_) if w_.shape[0] > 2 and cname in ('SE2', 'SE3', 'Twist2', 'Twist3') else 1.0),
                                                          dict(inp_, k=k_), what=f'value {k_} of multi-valued {cname} {fn_} differs from the single-valued result', sig=f'multi:{cname}:{fn_}')
+        # the base-package inverses are inverses (called directly, not through the classes)
+        if i % 3 == 1:
+            import spatialmath.base as b_
+            T3_ = mkSE3(g); T2_ = mkSE2(g)
+            for nm_, f_, T_ in (('trinv', b_.trinv, T3_), ('trinv2', b_.trinv2, T2_)):
+                ok, r = L.noraise(nm_, lambda: np.asarray(f_(T_), float), dict(T=T_), f'base.{nm_}(T)')
+                if ok:
+                    sc_ = max(1.0, float(np.linalg.norm(T_[:-1, -1])))
+                    L.close(f'{nm_}:left', r @ T_, np.eye(T_.shape[0]), 1e-9, sc_ ** 2 if sc_ < 1e3 else sc_ * 1e3, dict(T=T_), what=f'base.{nm_}(T) @ T is not the identity', sig=f'base.{nm_}')
+                    L.close(f'{nm_}:value', r, np.linalg.inv(T_), 1e-9, sc_, dict(T=T_), sig=f'base.{nm_}')
         # twist compositions whose net rotation is exactly a half turn (the end of the logarithm's range), general axes
         if i % 10 == 3:
             axh = inputs.unit_axis(g) if g.random() < 0.3 else (lambda v_: v_ / np.linalg.norm(v_))(g.normal(size=3))
